@@ -21,6 +21,8 @@ type specEnv struct {
 	pure      bool          // inside a spec-function axiom: no state access
 	entryPars bool          // parameter names denote entry values (postconditions)
 	fuelVar   string        // inside a recursive spec function's axiom: name of the fuel variable
+	cur       *State        // inside old(): the current state (locals keep their current values)
+	keepSlice bool          // old(x) keeps the slice header (for sameSlice / rgn / off)
 }
 
 func (env *specEnv) with(name string, v Val) *specEnv {
@@ -69,7 +71,14 @@ func (env *specEnv) eval(e SExpr) Val {
 		}
 		n := *env
 		n.st = env.old
-		return n.eval(x.X)
+		if n.cur == nil {
+			n.cur = env.st
+		}
+		r := n.eval(x.X)
+		if sv, ok := r.(VSlice); ok && isByteElem(sv.Elem) && !env.keepSlice {
+			return n.seq(sv) // old(b): the bytes b held in the old state
+		}
+		return r
 	case SSel:
 		// package-qualified constant or error sentinel?
 		if id, ok := x.X.(SId); ok {
@@ -136,6 +145,30 @@ func (env *specEnv) eval(e SExpr) Val {
 		v := T{fmt.Sprintf("%s!%d", sanitizeSym(x.Var), fc.nfr), SInt}
 		lo := asInt(env.eval(x.Lo))
 		hi := asInt(env.eval(x.Hi))
+		if fc.expandQuant {
+			// constant bounds: expand into ground instances
+			lc0, ok1 := constOf(lo)
+			hc0, ok2 := constOf(hi)
+			if ok1 && ok2 && lc0.IsInt64() && hc0.IsInt64() {
+				l, h := lc0.Int64(), hc0.Int64()
+				if x.LoOpen {
+					l++
+				}
+				if !x.HiOpen {
+					h++
+				}
+				if h-l <= 1024 {
+					var parts []T
+					for i := l; i < h; i++ {
+						parts = append(parts, asBool(env.with(x.Var, VInt{mkInt(i)}).eval(x.Body)))
+					}
+					if x.Forall {
+						return VBool{and(parts...)}
+					}
+					return VBool{or(parts...)}
+				}
+			}
+		}
 		var lc, hc T
 		if x.LoOpen {
 			lc = lt(lo, v)
@@ -311,6 +344,18 @@ func (env *specEnv) ident(name string) Val {
 		return v
 	}
 	switch name {
+	case "_i":
+		// hidden index of the innermost enclosing range loop without a key variable
+		if n := len(fc.rangeIdx); n > 0 {
+			for _, s := range []*State{env.st, env.cur} {
+				if s != nil {
+					if v, ok := s.vars[fc.rangeIdx[n-1]]; ok {
+						return v
+					}
+				}
+			}
+		}
+		panic(unsupported("_i used outside a range loop"))
 	case "MaxInt":
 		_, hi := typeRange(fc.intBits, true)
 		return VInt{mkBig(hi)}
@@ -347,6 +392,11 @@ func (env *specEnv) ident(name string) Val {
 				if v, ok := env.st.vars[o]; ok {
 					return v
 				}
+				if env.cur != nil {
+					if v, ok := env.cur.vars[o]; ok {
+						return v
+					}
+				}
 				if b, ok := env.st.ghost[boxKey(o)]; ok {
 					return fc.load(env.st, loc{kind: 1, obj: fc.objIndex(b), typ: o.Type()})
 				}
@@ -355,6 +405,10 @@ func (env *specEnv) ident(name string) Val {
 				}
 				if v, ok := fc.entryVars[name]; ok {
 					return v
+				}
+				if fc.lenient && env.entryPars {
+					// postcondition evaluated at a return that precedes the declaration: the variable reads as its zero value
+					return fc.zeroVal(o.Type())
 				}
 				panic(unsupported("contract refers to variable " + name + " that has no value at this point"))
 			case *types.Const:
@@ -476,7 +530,9 @@ func (env *specEnv) call(x SCall) Val {
 		s, p := env.seq(arg(0)), env.seq(arg(1))
 		return VBool{and(le(p.Len, s.Len), fc.seqEq(VStr{s.Arr, add(s.Off, sub(s.Len, p.Len)), p.Len}, p))}
 	case "sameSlice":
-		return VBool{valEq(arg(0), arg(1))}
+		n := *env
+		n.keepSlice = true
+		return VBool{valEq(n.eval(x.Args[0]), n.eval(x.Args[1]))}
 	case "fresh":
 		// fresh(r): r's region was allocated after the old state
 		v := arg(0).(VSlice)
